@@ -79,7 +79,9 @@ func runC28(c *eng.Ctx) {
 			}
 		}
 		c.Check("R1", f.Where(), "the previous sample is rejected exactly when there is none or t ≤ refTime − lookback (left-open lookback window)", ok, p.Pos(f.Body.Pos()), detail)
-		retTrue := eng.Return("return of a sample", func(g *eng.Graph, rs *ast.ReturnStmt) bool { return len(rs.Results) == 5 && nodeText(rs.Results[4]) == "true" })
+		retTrue := eng.Return("return of a sample", func(g *eng.Graph, rs *ast.ReturnStmt) bool {
+			return len(rs.Results) == 5 && nodeText(rs.Results[4]) == "true"
+		})
 		f.Has("R1", retTrue, 1)
 		f.GivenBranch("value.IsStaleNaN(v) || (h != nil && value.IsStaleNaN(h.Sum))", true).Unreachable("R1", retTrue)
 		f.Dom("R1", eng.CondTest("value.IsStaleNaN(v) || (h != nil && value.IsStaleNaN(h.Sum))"), retTrue)
@@ -284,7 +286,9 @@ func runC28(c *eng.Ctx) {
 		ls := rs.LitTexts("promql:evaluator")
 		ok := len(ls) == 1 && ls[0]["startTimestamp"] == "subqStart" && ls[0]["endTimestamp"] == "subqEnd" && ls[0]["interval"] == "subqInterval" && ls[0]["lookbackDelta"] == "ev.lookbackDelta" && ls[0]["querier"] == "ev.querier"
 		c.Check("R4", rs.Where(), "the subquery's evaluator runs over the subquery's time range with the parent's lookback delta and querier", ok, p.Pos(rs.Body.Pos()), "")
-		rs.Only("R4", eng.AssignVar("subqStart"), "comes from subqueryTimeRange", func(l eng.Loc) bool { return nodeText(l.Node) == "subqStart, subqEnd, subqInterval := ev.subqueryTimeRange(e)" })
+		rs.Only("R4", eng.AssignVar("subqStart"), "comes from subqueryTimeRange", func(l eng.Loc) bool {
+			return nodeText(l.Node) == "subqStart, subqEnd, subqInterval := ev.subqueryTimeRange(e)"
+		})
 		rs.Only("R4", p.Call("promql:setOffsetForAtModifier"), "re-bases @ offsets on the subquery's start when it differs from the parent's", func(l eng.Loc) bool {
 			a := eng.CallArgsText(l)
 			return len(a) == 2 && a[0] == "subqStart" && a[1] == "e.Expr" && rs.UnderCond(l, "subqStart != ev.startTimestamp")
